@@ -229,12 +229,27 @@ func init() {
 	})
 }
 
+// withFresh inserts steps of brand-new wallets (no leaf in state yet) into a plan: a first
+// transaction that pays the wallet itself, funded-then-spends, receive-only.
+func withFresh(gen func(seed uint64, tier string) *sim.Plan) func(seed uint64, tier string) *sim.Plan {
+	return func(seed uint64, tier string) *sim.Plan {
+		p := gen(seed, tier)
+		fr := sim.NewRNG(seed).Child("fresh")
+		for k := fr.Range(0, 4); k > 0 && len(p.Steps) > 0; k-- {
+			at := fr.Intn(len(p.Steps) + 1)
+			st := sim.Step{Op: "fresh", A: fr.Intn(6), I: []int64{int64(fr.Intn(3)), int64(fr.Pick([]int{1, 3, 6, 2, 2, 1})), int64(fr.Intn(12))}}
+			p.Steps = append(p.Steps[:at], append([]sim.Step{st}, p.Steps[at:]...)...)
+		}
+		return p
+	}
+}
+
 var coreWeights = map[string]int{"send": 10, "call": 10, "pour": 3, "data": 1, "replay": 2, "block": 4, "clock": 1}
 
 func init() {
 	sim.Register(&sim.Check{
 		ID: "C01", Title: "Total token supply is conserved by every transaction", World: "ledger",
-		Gen:   Scenario{Weights: coreWeights, Lo: 20, Hi: 120, Mixed: true}.Gen,
+		Gen:   withFresh(Scenario{Weights: coreWeights, Lo: 20, Hi: 120, Mixed: true}.Gen),
 		Exec:  baseExec("C01", func(w *World) []Observer { return []Observer{OracleC01{}} }),
 		Quick: sim.Budget{Runs: 320, WallS: 90}, Thorough: sim.Budget{Runs: 20000, WallS: 1500},
 		LevelText: "seeded search over transaction histories (every transaction type, every registered contract function with well-formed/boundary/malformed payloads, boundary values and fees, replays) on a real chain with all contracts; " +
